@@ -36,11 +36,13 @@ import (
 	libp2pquic "github.com/libp2p/go-libp2p/p2p/transport/quic"
 	"github.com/libp2p/go-libp2p/p2p/transport/quicreuse"
 	"github.com/libp2p/go-libp2p/p2p/transport/tcp"
+	"github.com/libp2p/go-libp2p/p2p/transport/tcpreuse"
 	libp2pwebtransport "github.com/libp2p/go-libp2p/p2p/transport/webtransport"
 	ma "github.com/multiformats/go-multiaddr"
 	manet "github.com/multiformats/go-multiaddr/net"
 	"github.com/quic-go/quic-go"
 
+	"verifsim/simhook"
 	"verifsim/simnet"
 )
 
@@ -87,6 +89,11 @@ type Opts struct {
 	WTOpts       []libp2pwebtransport.Option
 	NoQUICListen bool // QUIC transport dial-only (WebTransport may still listen)
 
+	// SharedTCP builds the TCP transport with a real tcpreuse.ConnMgr and lets TcpTransport.Listen itself run (demultiplexing
+	// listener, sampledconn); see sharedtcp.go. Not with a PSK (the first bytes of a private-network connection are a
+	// random nonce, which the demultiplexer cannot classify) and not with Limited.
+	SharedTCP bool
+
 	WithHost bool // build a basic host on top of the swarm
 	HostOpts *basichost.HostOpts
 }
@@ -116,6 +123,7 @@ type Transport struct {
 	rcmgr   network.ResourceManager
 	dialer  *simnet.Dialer
 	limited func(remote net.Addr) bool
+	shared  bool
 }
 
 // limitedConn is a raw connection that reports itself as limited.
@@ -176,6 +184,9 @@ func (t *Transport) DialWithUpdates(ctx context.Context, raddr ma.Multiaddr, p p
 }
 
 func (t *Transport) Listen(laddr ma.Multiaddr) (transport.Listener, error) {
+	if t.shared {
+		return t.TcpTransport.Listen(laddr) // the real one; its socket comes from simnet through simhook
+	}
 	na, err := manet.ToNetAddr(laddr)
 	if err != nil {
 		return nil, err
@@ -270,13 +281,28 @@ func New(n *simnet.Net, o Opts) (*Node, error) {
 	nd.Up = up
 	d := n.Dialer(o.IP)
 	topts := append([]tcp.Option{tcp.DisableReuseport(), tcp.WithDialerForAddr(func(ma.Multiaddr) (tcp.ContextDialer, error) { return d, nil })}, o.TCPOpts...)
-	tt, err := tcp.NewTCPTransport(up, nd.Rcmgr, nil, topts...)
+	var shared *tcpreuse.ConnMgr
+	if o.SharedTCP {
+		if o.PSK != nil || o.Limited != nil {
+			sw.Close()
+			nd.closePS()
+			return nil, fmt.Errorf("simhost: SharedTCP cannot be combined with PSK or Limited")
+		}
+		if !simhook.TCPReuseSeam {
+			sw.Close()
+			nd.closePS()
+			return nil, fmt.Errorf("simhost: SharedTCP needs the tcpreuse overlay seam (props.py: TCPREUSE_STACK, TCPREUSE_ADD, TCPREUSE_PATCH)")
+		}
+		installListenHook(n)
+		shared = tcpreuse.NewConnMgr(false, up)
+	}
+	tt, err := tcp.NewTCPTransport(up, nd.Rcmgr, shared, topts...)
 	if err != nil {
 		sw.Close()
 		nd.closePS()
 		return nil, err
 	}
-	nd.Tpt = &Transport{TcpTransport: tt, net: n, up: up, rcmgr: nd.Rcmgr, dialer: d, limited: o.Limited}
+	nd.Tpt = &Transport{TcpTransport: tt, net: n, up: up, rcmgr: nd.Rcmgr, dialer: d, limited: o.Limited, shared: o.SharedTCP}
 	if err := sw.AddTransport(nd.Tpt); err != nil {
 		sw.Close()
 		nd.closePS()
